@@ -137,15 +137,17 @@ def start(
     # Create QMI context.
     _qmi_context = QMI_Context(context_name, config)
 
-    if init_logging:
-        _init_logging()
-
-    _logger.info(
-        "QMI starting (prog=%r, context=%r, pid=%d, config=%r)",
-        sys.argv[0], context_name, os.getpid(), config_file
-    )
-
     try:
+        # Initialize logging. This can fail (for example when the log directory can not be created
+        # or the configuration names an unknown log level), so it is part of what gets rolled back.
+        if init_logging:
+            _init_logging()
+
+        _logger.info(
+            "QMI starting (prog=%r, context=%r, pid=%d, config=%r)",
+            sys.argv[0], context_name, os.getpid(), config_file
+        )
+
         # Start QMI context.
         _qmi_context.start()
 
@@ -153,7 +155,8 @@ def start(
         _connect_to_peers()
 
     except BaseException:
-        # Starting failed (for example because the TCP port is in use or a peer is unreachable).
+        # Starting failed (for example because logging could not be initialized, the TCP port is in use
+        # or a peer is unreachable).
         # Do not keep the partially started context as global context: it could neither be
         # stopped via qmi.stop() nor be replaced by a new call to qmi.start().
         failed_context = _qmi_context
